@@ -285,45 +285,53 @@ example : Dcg.Model.TemplateInv.identValueB "None".toList = false ∧
 
 `Model/Placeholder` models `Parser.__override_required_field` (compared with the real pass on random
 class graphs on every run): the name-less placeholder that a `required` entry naming no declared
-member leaves behind is replaced by a copy of the base-class member or dropped. -/
+member leaves behind is replaced by a copy of the base-class member or dropped — for every wire name. -/
 
 section Placeholder
 open Dcg.Model.Placeholder
 
-/-- **After the pass every member of a class model is an original member that was not a pending
-placeholder, or a copy of a base-class member.** -/
+/-- **After the pass every member of a class model is an original member that has no wire name or
+has a type, or the required copy of the base-class member that the lookup returned for the wire name
+of a placeholder** (a member with a wire name — ANY string — and an empty type). -/
 theorem override_members (find : List Char → Option Fld) (fs : List Fld) (g : Fld)
     (h : g ∈ overrideFields find fs) :
-    (g ∈ fs ∧ pending g = false) ∨
-    (∃ f ∈ fs, pending f = true ∧ ∃ o, find (f.orig.getD []) = some o ∧ g = { o with required := true }) :=
+    (g ∈ fs ∧ (g.orig = none ∨ g.typed = true)) ∨
+    (∃ f ∈ fs, ∃ n, f.orig = some n ∧ f.typed = false ∧
+      ∃ o, find n = some o ∧ g = { o with required := true }) :=
   Dcg.Proofs.Placeholder.overrideFields_mem h
 
-/-- **No name-less member is left** — in every class model whose name-less members are all pending
-placeholders (a wire name that is not empty, an empty type) and whose base-class members all have
-names: every member after the pass has a name, i.e. `{{ field.name }}` receives a name for every
-member (`identifier_values_discharge_hypotheses` then needs only C07). -/
+/-- **No name-less member is left** — in every class model whose name-less members are all
+placeholders of `required` entries (a wire name — any string, the empty one included — and an empty
+type: what `_parse_object_common_part` appends) and whose base-class members all have names: every
+member after the pass has a name, i.e. `{{ field.name }}` receives a name for every member
+(`identifier_values_discharge_hypotheses` then needs only C07).  No wire name is excepted: the guard
+of the pass is `original_name is None`, so the placeholder of `required: [""]` is resolved or dropped
+like every other one (it used to be kept and rendered `None: None` under the guard
+`not original_name`; repaired, see known_findings.d/_fixed.json C01-required-empty-name). -/
 theorem override_leaves_only_named (find : List Char → Option Fld) (fs : List Fld)
-    (hfs : ∀ f ∈ fs, f.name = none → pending f = true)
+    (hfs : ∀ f ∈ fs, f.name = none → f.orig ≠ none ∧ f.typed = false)
     (hfind : ∀ n o, find n = some o → o.name ≠ none) :
     ∀ g ∈ overrideFields find fs, g.name ≠ none := by
   intro g hg
-  rcases override_members find fs g hg with ⟨hm, hp⟩ | ⟨f, _, _, o, ho, hgo⟩
+  rcases override_members find fs g hg with ⟨hm, hp⟩ | ⟨f, _, n, _, _, o, ho, hgo⟩
   · intro hn
-    rw [hfs g hm hn] at hp
-    cases hp
+    obtain ⟨h1, h2⟩ := hfs g hm hn
+    rcases hp with hp | hp
+    · exact h1 hp
+    · rw [h2] at hp; cases hp
   · rw [hgo]
-    exact hfind _ o ho
+    exact hfind n o ho
 
-/-- The hypothesis on the members cannot be dropped, and the code does not provide it: the
-placeholder of `required: [""]` has a wire name that is EMPTY, which the test
-`not model_field.original_name` treats like no wire name — it is not pending, it is kept, and it has
-no name (recorded finding C01-required-empty-name; `D = allOf [$ref B], required: [""]` renders
-`None: None`). -/
-theorem empty_required_name_survives :
-    overrideFields (fun _ => none) [⟨none, some [], false, true⟩] = [⟨none, some [], false, true⟩] ∧
-    pending ⟨none, some [], false, true⟩ = false := by decide
+/-- **A placeholder never stays**, whatever its wire name: a name-less member with a wire name and an
+empty type is in the result only as the required copy of a base-class member, and it is dropped when
+no base class declares the wire name. -/
+theorem placeholder_resolved_or_dropped (find : List Char → Option Fld) (f : Fld) (n : List Char)
+    (ho : f.orig = some n) (ht : f.typed = false) :
+    overrideOne find f = (find n).map (fun o => { o with required := true }) :=
+  Dcg.Proofs.Placeholder.overrideOne_placeholder find f n ho ht
 
-/-- what the breadth-first lookup returns carries the wire name that was asked for -/
+/-- what the breadth-first lookup returns carries the wire name that was asked for — for every wire
+name, the empty one included -/
 theorem lookup_returns_the_wire_name (n : List Char) (k : Nat) (ms : List Mdl) (o : Fld)
     (h : findField n k ms = some o) : o.orig = some n :=
   Dcg.Proofs.Placeholder.findField_orig k ms o h
@@ -335,6 +343,19 @@ example : overrideModel 8 false (.mk [⟨none, some "x".toList, false, true⟩, 
       [.mk [⟨some "x".toList, some "x".toList, true, false⟩] []]) =
     [⟨some "x".toList, some "x".toList, true, true⟩, ⟨some "y".toList, some "y".toList, true, false⟩] := by decide
 example : overrideModel 8 false (.mk [⟨none, some "ghost".toList, false, true⟩] []) = [] := by decide
+/-- non-vacuity with the EMPTY wire name (`D = allOf [$ref B], required: [""]`, the former finding
+C01-required-empty-name): the placeholder is dropped when no base declares a member `""` … -/
+example : overrideModel 8 false (.mk [⟨none, some [], false, true⟩]
+      [.mk [⟨some "x".toList, some "x".toList, true, false⟩] []]) = [] := by decide
+/-- … and re-declared (marked required, under the base member's name `field_`) when one does, also
+through a base of the base -/
+example : overrideModel 8 false (.mk [⟨none, some [], false, true⟩]
+      [.mk [⟨some "x".toList, some "x".toList, true, false⟩] [.mk [⟨some "field_".toList, some [], true, false⟩] []]]) =
+    [⟨some "field_".toList, some [], true, true⟩] := by decide
+/-- … and both hypotheses of `override_leaves_only_named` hold of that model -/
+example : (∀ f ∈ [(⟨none, some [], false, true⟩ : Fld)], f.name = none → f.orig ≠ none ∧ f.typed = false) ∧
+    (findField [] 8 [.mk [⟨some "field_".toList, some [], true, false⟩] []]).map (·.name) = some (some "field_".toList) := by
+  decide
 
 end Placeholder
 
